@@ -13,6 +13,7 @@ CONSTANTS
   Emit = FALSE
 INVARIANT TypeOK
 INVARIANT StatusExact
+INVARIANT ImpliedSuccess
 INVARIANT NoDanglingRef
 INVARIANT AtomicOK
 CHECK_DEADLOCK FALSE
